@@ -36,7 +36,7 @@ theorem mulDec_zero_left (r : Nat) : mulDec 0 r = 0 := by
 theorem mulDec_mono_left (a b r : Nat) (h : a ≤ b) : mulDec a r ≤ mulDec b r := by
   unfold mulDec; exact Nat.div_le_div_right (Nat.mul_le_mul_right r h)
 
-theorem mulDec_le_self (a r : Nat) (hr : r ≤ D) : mulDec a r ≤ a := by
+theorem mulDec_le_of_rate_le_one (a r : Nat) (hr : r ≤ D) : mulDec a r ≤ a := by
   unfold mulDec
   apply Nat.div_le_of_le_mul
   rw [Nat.mul_comm D a]
@@ -268,7 +268,7 @@ theorem release_owed_le (h h1 : HubSt) (cutoff bal : Nat)
       rw [hact'] at hsB hsS ⊢
       generalize hbR : (if sT + bT > 0 then D - fromRatio sT (sT + bT) else 0) = bR at *
       have hbRle : bR ≤ D := by rw [← hbR]; split <;> omega
-      have hbA : mulDec act bR ≤ act := mulDec_le_self act bR hbRle
+      have hbA : mulDec act bR ≤ act := mulDec_le_of_rate_le_one act bR hbRle
       -- the new history entries
       let g : Nat → History := fun i =>
         { h.histOr i with
